@@ -36,7 +36,7 @@ ASSUMPTIONS = ["observer instances never outlive their own time-out, victims are
                "global endpoints (metrics) are excluded from the comparison",
                "the oracle is self-relative: a defect that is identical in the interleaved and the solo run does not surface here"]
 FAULT_KINDS = ["request_interleaving", "victim_expiry", "victim_stop", "preemption"]
-PROBES = ["server_level_run_traffic", "same_settings_on_two_instances", "victim_swept_by_observer_request", "victim_stopped", "settings_differ_between_instances", "shared_base_model",
+PROBES = ["instances_created_by_one_batch_request", "server_level_run_traffic", "same_settings_on_two_instances", "victim_swept_by_observer_request", "victim_stopped", "settings_differ_between_instances", "shared_base_model",
           "adapter_files_compared"]
 EXHAUSTIVE = {"quick": False, "thorough": False}
 
@@ -73,12 +73,18 @@ def generate(spec):
     eqs = {"T1": ["stock", "flow", "constant"], "T2": ["stockA", "stockB", "move", "gain"]}[template]
     insts = []
     ops = []
+    batch = k >= 2 and rng.random() < 0.3
     for j in range(k):
-        victim = j > 0 and rng.random() < 0.4
+        victim = j > 0 and rng.random() < 0.4 and not (batch and j == 1)
         to = {"seconds": rng.choice([2, 5, 30])} if victim else {"hours": 12}
         insts.append({"role": "victim" if victim else "observer", "timeout": to})
         t = rng.randrange(0, 3 * 10**6)
-        ops.append({"t_us": t, "inst": j, "op": "create"})
+        if batch and j == 1:
+            t = ops[0]["t_us"]          # created by the same /start-instances request as instance 0
+        elif batch and j == 0:
+            ops.append({"t_us": t, "inst": 0, "op": "create_batch", "insts": [0, 1]})
+        else:
+            ops.append({"t_us": t, "inst": j, "op": "create"})
         scen = rng.choice(["base", "alt"])
         t += rng.randrange(1, 10**6)
         ops.append({"t_us": t, "inst": j, "op": "begin_session", "scenarios": [scen] if rng.random() < 0.7 else ["base", "alt"],
@@ -153,6 +159,12 @@ def _do(w, ids, o, tag=None):
     op = o["op"]
     if op == "server_run":
         return w.post("/run", {"scenario_managers": ["smA"], "scenarios": [o["scenario"]], "equations": o["equations"], "settings": o["settings"]})
+    if op == "create_batch":
+        r = w.post("/start-instances", {"timeout": o["timeout"], "instances": len(o["insts"])})
+        if r.status == 200 and isinstance(r.body, dict):
+            for jj, iid in zip(o["insts"], r.body.get("instance_uuids", [])):
+                ids[jj] = iid
+        return r
     if op == "create":
         r = w.post("/start-instance", {"timeout": o["timeout"]})
         if r.status == 200 and isinstance(r.body, dict):
@@ -195,12 +207,13 @@ def _run(case, only=None, log=None, res=None, conc=None):
     with ServerWorld(wcfg, log, res) as w:
         w.boot()
         ids = {}
-        ops = [(n, o) for n, o in enumerate(case["ops"]) if only is None or o["inst"] == only]
+        ops = [(n, o) for n, o in enumerate(case["ops"]) if only is None or o["inst"] == only
+               or (o["op"] == "create_batch" and only in o["insts"])]
         pos = 0
         while pos < len(ops):
             n, o = ops[pos]
             o = dict(o)
-            if o["op"] == "create":
+            if o["op"] in ("create", "create_batch"):
                 o["timeout"] = case["instances"][o["inst"]]["timeout"]
             # thorough: two consecutive requests of different instances run as concurrent client tasks
             pair = None
@@ -310,7 +323,7 @@ def execute(case):
         n = 0
         while n + 1 < len(ops):
             a, b = ops[n], ops[n + 1]
-            if a["inst"] != b["inst"] and a["op"] not in ("create", "stop_instance") and b["op"] not in ("create", "stop_instance") \
+            if a["inst"] != b["inst"] and a["op"] not in ("create", "create_batch", "stop_instance") and b["op"] not in ("create", "create_batch", "stop_instance") \
                     and (a["inst"] >= 0 or b["inst"] >= 0):
                 pairs.add(n)
                 n += 2
@@ -325,6 +338,8 @@ def execute(case):
     fate = _fate(case)
     k = len(case["instances"])
     seq = [o["inst"] for o in case["ops"]]
+    if any(o["op"] == "create_batch" for o in case["ops"]):
+        res.probe("instances_created_by_one_batch_request")
     if any(o["op"] == "server_run" for o in case["ops"]):
         res.probe("server_level_run_traffic")
     interleaved = any(seq[a] != seq[a + 1] for a in range(len(seq) - 1))
@@ -393,7 +408,7 @@ def shrink(case):
                 yield c
     # drop whole instances (renumbering), then single ops
     k = len(case["instances"])
-    if k > 2:
+    if k > 2 and not any(o["op"] == "create_batch" for o in case["ops"]):
         for j in range(k):
             c = copy.deepcopy(case)
             c["instances"].pop(j)
@@ -411,6 +426,8 @@ def shrink(case):
         for o in c["ops"]:
             if o["op"] == "create":
                 seen.add(o["inst"])
+            elif o["op"] == "create_batch":
+                seen |= set(o["insts"])
             elif o["inst"] >= 0 and o["inst"] not in seen:
                 ok = False
                 break
